@@ -158,6 +158,10 @@ structure Sys where
   resetsUp : List Bytes := []
   /-- …and for joins: (device, DevNonce) of every key change made while the nonce check is on. -/
   keyedJoins : List (Bytes × Nat) := []
+  /-- …and for acknowledgements: the device of every accepted confirmed uplink that set the pending-
+      ACK flag, and the device of every assembled frame that carried the ACK flag. -/
+  ackSets : List Bytes := []
+  ackFrames : List Bytes := []
   deriving Repr, Inhabited
 
 def Sys.init (db : DB) : Sys := { db := db, fob := [], scheduled := [], threads := [], emitted := [], published := [], now := 1 }
@@ -374,7 +378,7 @@ def stepUplink (E : BlockFn) (sys : Sys) (s : UpSt) (fault : Bool) : Sys × List
     else (sys, [.uplink { s with pc := 4 }])
   | 4 =>
     -- SetMessageAckFlag for confirmed uplinks (output buffer; cannot fail)
-    let sys := if s.p.mhdr.mtype = mtConfirmedDataUp then { sys with fob := fobSetAck sys.fob s.cur.eui } else sys
+    let sys := if s.p.mhdr.mtype = mtConfirmedDataUp then { sys with fob := fobSetAck sys.fob s.cur.eui, ackSets := sys.ackSets ++ [s.cur.eui] } else sys
     (sys, [.uplink { s with pc := 5 }])
   | 5 =>
     -- UpdateMessageAckTime / ResetActiveAcks (errors ignored / logged)
@@ -502,6 +506,24 @@ def stepEncoder (E D : BlockFn) (sys : Sys) (pc : Nat) (p : PHY) (c : Ctx) (byte
                        emittedDn := sys.emittedDn ++ [(c.device.eui, p.mac.fhdr.fcnt)] }, [.done])
   else (sys, [.done])
 
+/-- The scheduler takes a notification: duplicate if the device has a send in flight. -/
+def stepNotify (sys : Sys) (c : Ctx) : Sys × List Thread :=
+  if sys.scheduled.contains c.device.eui then (sys, [.done])
+  else ({ sys with scheduled := c.device.eui :: sys.scheduled }, [.sendAt c])
+
+/-- `sendAt` when the receive window closes: `GetPHYPayloadForDevice`, hand-over to the encoder. -/
+def stepSendAt (sys : Sys) (c : Ctx) : Sys × List Thread :=
+  match (fobTake sys.fob c.device c.gw.dataRate).2 with
+  | some p =>
+    ({ sys with fob := (fobTake sys.fob c.device c.gw.dataRate).1,
+                ackFrames := if p.mac.fhdr.fctrl.ack then sys.ackFrames ++ [c.device.eui] else sys.ackFrames },
+     [.sendDone c.device.eui, .encoder 0 p c []])
+  | none => ({ sys with fob := (fobTake sys.fob c.device c.gw.dataRate).1 }, [.sendDone c.device.eui])
+
+/-- `sendAt` reports completion to the scheduler. -/
+def stepSendDone (sys : Sys) (e : Bytes) : Sys × List Thread :=
+  ({ sys with scheduled := sys.scheduled.filter (· != e) }, [.done])
+
 /-- One step of thread `i`. -/
 def step (E D : BlockFn) (cfg : Config) (sys : Sys) (i : Nat) (fault : Bool) : Sys :=
   match sys.threads[i]? with
@@ -511,16 +533,9 @@ def step (E D : BlockFn) (cfg : Config) (sys : Sys) (i : Nat) (fault : Bool) : S
       match t with
       | .uplink s => stepUplink E sys s fault
       | .join s => stepJoin E cfg sys s fault
-      | .notify _p c =>
-        -- scheduler: duplicate if the device has a send in flight
-        if sys.scheduled.contains c.device.eui then (sys, [.done])
-        else ({ sys with scheduled := c.device.eui :: sys.scheduled }, [.sendAt c])
-      | .sendAt c =>
-        let (fob, r) := fobTake sys.fob c.device c.gw.dataRate
-        match r with
-        | some p => ({ sys with fob := fob }, [.sendDone c.device.eui, .encoder 0 p c []])
-        | none => ({ sys with fob := fob }, [.sendDone c.device.eui])
-      | .sendDone e => ({ sys with scheduled := sys.scheduled.filter (· != e) }, [.done])
+      | .notify _p c => stepNotify sys c
+      | .sendAt c => stepSendAt sys c
+      | .sendDone e => stepSendDone sys e
       | .encoder pc p c b => stepEncoder E D sys pc p c b fault
       | .done => (sys, [.done])
     match ts with
